@@ -131,7 +131,12 @@ func run(o options) int {
 			results = append(results, fr)
 		}
 	}
-	return report(o, w, results, missing, start, loadT, genT)
+	rc := report(o, w, results, missing, start, loadT, genT)
+	if o.base != o.verif && os.Getenv("GOVC_KEEP") == "" {
+		// scratch runs keep their report and replay files, not their queries
+		os.RemoveAll(filepath.Join(o.outBase, "smt"))
+	}
+	return rc
 }
 
 func isIfaceMethodKey(w *World, key string) bool {
@@ -416,6 +421,19 @@ func assumptionsFor(prop string, w *World) []string {
 		}
 	}
 	sort.Strings(trusted)
+	// contracts that no property check proves (no `props` line): callers use
+	// them, nothing discharges them - they are assumptions too
+	var unproved []string
+	for _, k := range w.cs.Order {
+		fc := w.cs.Funcs[k]
+		if !(fc.NoBody || fc.Trusted || fc.Pkg == "") && len(fc.Props) == 0 && !fc.Inline && (len(fc.Ensures) > 0 || fc.Pure) && !isIfaceMethodKey(w, k) {
+			unproved = append(unproved, strings.TrimPrefix(k, modPath+"/"))
+		}
+	}
+	sort.Strings(unproved)
+	if len(unproved) > 0 {
+		out = append(out, "contracts under no property (used at call sites, proved by no check): "+strings.Join(unproved, ", "))
+	}
 	if len(trusted) > 0 {
 		out = append(out, "assumed (unverified) contracts: "+strings.Join(trusted, ", "))
 	}
@@ -535,6 +553,11 @@ func outsideRegion(ob *Obligation, k *knownFinding, dir string, timeoutMs int) b
 	save := *ob
 	ob.Name += "~outside-known-region"
 	discharge(ob, q, dir, timeoutMs, false)
+	if ob.Verdict == "unknown" || ob.Verdict == "timeout" {
+		// undecided is not an answer (loaded machine): once more with four times the limit
+		ob.Model = ""
+		discharge(ob, q, dir, timeoutMs*4, false)
+	}
 	ok := ob.Verdict == "unsat"
 	*ob = save
 	return ok
